@@ -1737,7 +1737,9 @@ dereferences of the unrepaired code have no counterpart in the model: tokens rea
 theorem nexus_never_internal (sy : Syms) (text : List Char) (w : String) : readNexus sy text ≠ .error (.internal w) :=
   (readNexus_post sy text).1 w
 
-/-- **Declared versus found (NEXUS MATRIX).**  Whenever `_parse_matrix_statement` returns, NTAX and NCHAR were declared
+/-- **Declared versus found (NEXUS MATRIX)** — about one call of `parseMatrix` from an arbitrary state (the two guards
+of `matrixCheck`); it is not lifted to the `mats` that `readNexus` finally returns (that needs `mats` invariance of every
+other function of the reader and is not proved).  Whenever `_parse_matrix_statement` returns, NTAX and NCHAR were declared
 and positive, and the matrix it has appended has rows of exactly the declared NCHAR — in sequential and in interleaved
 mode, whatever the rows looked like — and no more rows than an NTAX given by the block's own DIMENSIONS statement. -/
 theorem nexus_matrix_dims (sy : Syms) (s s' : RS) (h : parseMatrix sy s = .ok s') :
@@ -2094,6 +2096,275 @@ the list is at most the declared NCHAR — single positions, ranges, `.`, `ALL` 
 theorem charset_positions_in_range (s s' : RS) (h : parsePositions s = .ok s') : ∀ q ∈ s'.positions, q ≤ s.nchar.getD 0 :=
   parsePositions_range s s' h
 
+end DendroModel.C20
+
+namespace DendroModel.C20.Aux
+open DendroModel DendroModel.C20
+
+/-! ### exit conditions: a statement parser returns only after its terminator -/
+theorem OkImp.pure {α : Type} {a : α} {Q : α → Prop} (h : Q a) : OkImp (Pure.pure a : R α) Q := by
+  intro b hb; cases hb; exact h
+
+theorem OkImp.ok {α : Type} {a : α} {Q : α → Prop} (h : Q a) : OkImp (Except.ok a : R α) Q := by
+  intro b hb; cases hb; exact h
+
+theorem OkImp.mono {α : Type} {r : R α} {Q Q' : α → Prop} (h : OkImp r Q) (himp : ∀ a, Q a → Q' a) : OkImp r Q' :=
+  fun a ha => himp a (h a ha)
+
+theorem OkImp.bind' {α β : Type} {x : R α} {g : α → R β} {Q1 : α → Prop} {Q : β → Prop}
+    (hx : OkImp x Q1) (hg : ∀ a, Q1 a → OkImp (g a) Q) : OkImp (x >>= g) Q := by
+  intro b hb
+  cases hxx : x with
+  | error e => rw [hxx] at hb; cases hb
+  | ok a => rw [hxx] at hb; exact hg a (hx a hxx) b hb
+
+/-- **loop rule with invariant and exit condition**: an invariant of the body is an invariant of the loop, and a loop that
+returns has seen its body stop (`false`), so whatever the body guarantees on stopping holds of the result -/
+theorem iter_spec (b : RS → R (Bool × RS)) (I E : RS → Prop)
+    (hb : ∀ s, I s → OkImp (b s) (fun p => I p.2 ∧ (p.1 = false → E p.2))) :
+    ∀ s, I s → OkImp (iter b s) (fun s' => I s' ∧ E s') := by
+  have key : ∀ (n : Nat) (s : RS), s.rest.length ≤ n → I s → OkImp (iter b s) (fun s' => I s' ∧ E s') := by
+    intro n
+    induction n with
+    | zero =>
+      intro s hl hi
+      rw [iter]
+      split
+      · intro a ha; cases ha
+      · rename_i s1 h1
+        have := hb s hi _ h1
+        exact OkImp.ok ⟨this.1, this.2 rfl⟩
+      · rename_i s1 h1
+        split
+        · omega
+        · intro a ha; cases ha
+    | succ n ih =>
+      intro s hl hi
+      rw [iter]
+      split
+      · intro a ha; cases ha
+      · rename_i s1 h1
+        have := hb s hi _ h1
+        exact OkImp.ok ⟨this.1, this.2 rfl⟩
+      · rename_i s1 h1
+        split
+        · rename_i hlt
+          exact ih s1 (by omega) (hb s hi _ h1).1
+        · intro a ha; cases ha
+  exact fun s hi => key s.rest.length s (Nat.le_refl _) hi
+
+theorem requireUcase_okimp (s : RS) : OkImp (requireUcase s) (fun _ => True) := fun _ _ => trivial
+
+theorem parseDimensions_exit (s : RS) : OkImp (parseDimensions s) (fun s' => s'.stok = semi.text) := by
+  unfold parseDimensions
+  refine OkImp.bind ?_
+  rintro ⟨t, s1⟩
+  try dsimp only
+  refine OkImp.mono (iter_spec _ (fun _ => True) (fun s' => s'.stok = semi.text) ?_ _ trivial) (fun a h => h.2)
+  intro s _
+  try dsimp only
+  refine OkImp.ite (fun h => OkImp.pure ⟨trivial, fun _ => by simpa using h⟩) (fun _ => ?_)
+  refine OkImp.bind ?_
+  intro s2
+  refine OkImp.bind ?_
+  rintro ⟨t2, s3⟩
+  exact OkImp.pure ⟨trivial, fun h => by cases h⟩
+
+theorem parseTaxlabels_exit (i : Nat) (s : RS) : OkImp (parseTaxlabels i s) (fun s' => s'.stok = semi.text ∧ s'.quoted = false) := by
+  unfold parseTaxlabels
+  refine OkImp.bind ?_
+  rintro ⟨t, s1⟩
+  try dsimp only
+  refine OkImp.mono (iter_spec _ (fun _ => True) (fun s' => s'.stok = semi.text ∧ s'.quoted = false) ?_ _ trivial) (fun a h => h.2)
+  intro s _
+  try dsimp only
+  refine OkImp.ite (fun h => OkImp.pure ⟨trivial, fun _ => by simpa using h⟩) (fun _ => ?_)
+  refine OkImp.bind ?_
+  intro s2
+  refine OkImp.bind ?_
+  rintro ⟨t2, s3⟩
+  exact OkImp.pure ⟨trivial, fun h => by cases h⟩
+
+theorem parseLink_exit (s : RS) : OkImp (parseLink s) (fun s' => s'.stok = semi.text) := by
+  unfold parseLink
+  refine OkImp.bind ?_
+  rintro ⟨t, s1⟩
+  try dsimp only
+  refine OkImp.mono (iter_spec _ (fun _ => True) (fun s' => s'.stok = semi.text) ?_ _ trivial) (fun a h => h.2)
+  intro s _
+  try dsimp only
+  refine OkImp.ite (fun h => OkImp.pure ⟨trivial, fun _ => by simpa using h⟩) (fun _ => ?_)
+  refine OkImp.ite (fun _ => ?_) (fun _ => OkImp.ite (fun _ => ?_) (fun _ => ?_))
+  · refine OkImp.bind ?_
+    rintro ⟨t2, s2⟩
+    refine OkImp.ite (fun _ => OkImp.perr _) (fun _ => ?_)
+    refine OkImp.bind ?_
+    rintro ⟨v, s3⟩
+    refine OkImp.bind ?_
+    rintro ⟨t3, s4⟩
+    exact OkImp.pure ⟨trivial, fun h => by cases h⟩
+  · refine OkImp.bind ?_
+    rintro ⟨t2, s2⟩
+    refine OkImp.ite (fun _ => OkImp.perr _) (fun _ => ?_)
+    refine OkImp.bind ?_
+    rintro ⟨v, s3⟩
+    refine OkImp.bind ?_
+    rintro ⟨t3, s4⟩
+    exact OkImp.pure ⟨trivial, fun h => by cases h⟩
+  · refine OkImp.bind ?_
+    rintro ⟨t2, s2⟩
+    exact OkImp.pure ⟨trivial, fun h => by cases h⟩
+
+/-- a body of the FORMAT loop other than the one for `;` always asks to continue -/
+theorem fmt_continues {b : R (Bool × RS)} (h : OkImp b (fun p => p.1 = true)) :
+    OkImp b (fun p => True ∧ (p.1 = false → p.2.stok = semi.text)) :=
+  OkImp.mono h (fun p hp => ⟨trivial, fun hf => by rw [hp] at hf; cases hf⟩)
+
+theorem fmtDatatype_true (s : RS) : OkImp (fmtDatatype s) (fun p => p.1 = true) := by
+  unfold fmtDatatype
+  refine OkImp.bind ?_
+  rintro ⟨t, s1⟩
+  refine OkImp.ite (fun _ => OkImp.perr _) (fun _ => ?_)
+  refine OkImp.bind ?_
+  rintro ⟨t2, s2⟩
+  refine OkImp.bind ?_
+  rintro ⟨t3, s3⟩
+  exact OkImp.pure rfl
+
+theorem fmtSymbols_true (s : RS) : OkImp (fmtSymbols s) (fun p => p.1 = true) := by
+  unfold fmtSymbols
+  refine OkImp.bind ?_
+  rintro ⟨t, s1⟩
+  refine OkImp.ite (fun _ => OkImp.perr _) (fun _ => ?_)
+  refine OkImp.bind ?_
+  rintro ⟨t2, s2⟩
+  refine OkImp.ite (fun _ => OkImp.perr _) (fun _ => ?_)
+  refine OkImp.bind ?_
+  rintro ⟨t3, s3⟩
+  refine OkImp.bind ?_
+  intro s4
+  refine OkImp.bind ?_
+  rintro ⟨t5, s5⟩
+  exact OkImp.pure rfl
+
+theorem fmtAssign_true (f : Nat) (s : RS) : OkImp (fmtAssign f s) (fun p => p.1 = true) := by
+  unfold fmtAssign
+  refine OkImp.bind ?_
+  rintro ⟨t, s1⟩
+  refine OkImp.ite (fun _ => OkImp.perr _) (fun _ => ?_)
+  refine OkImp.bind ?_
+  rintro ⟨t2, s2⟩
+  refine OkImp.bind ?_
+  rintro ⟨t3, s3⟩
+  exact OkImp.pure rfl
+
+theorem fmtInterleave_true (s : RS) : OkImp (fmtInterleave s) (fun p => p.1 = true) := by
+  unfold fmtInterleave
+  refine OkImp.bind ?_
+  rintro ⟨t, s1⟩
+  refine OkImp.ite (fun _ => ?_) (fun _ => OkImp.pure rfl)
+  refine OkImp.bind ?_
+  rintro ⟨t2, s2⟩
+  refine OkImp.bind ?_
+  rintro ⟨t3, s3⟩
+  exact OkImp.pure rfl
+
+theorem parseFormat_exit (s : RS) : OkImp (parseFormat s) (fun s' => s'.stok = semi.text) := by
+  unfold parseFormat
+  refine OkImp.bind ?_
+  rintro ⟨t, s1⟩
+  try dsimp only
+  refine OkImp.mono (iter_spec _ (fun _ => True) (fun s' => s'.stok = semi.text) ?_ _ trivial) (fun a h => h.2)
+  intro s _
+  try dsimp only
+  refine OkImp.ite (fun h => OkImp.pure ⟨trivial, fun _ => by simpa using h⟩) (fun _ => ?_)
+  refine OkImp.ite (fun _ => fmt_continues (fmtDatatype_true s)) (fun _ => ?_)
+  refine OkImp.ite (fun _ => fmt_continues (fmtSymbols_true s)) (fun _ => ?_)
+  refine OkImp.ite (fun _ => fmt_continues (fmtAssign_true _ s)) (fun _ => ?_)
+  refine OkImp.ite (fun _ => fmt_continues (fmtInterleave_true s)) (fun _ => ?_)
+  refine OkImp.ite (fun _ => fmt_continues (fmtAssign_true _ s)) (fun _ => ?_)
+  refine OkImp.ite (fun _ => fmt_continues (fmtAssign_true _ s)) (fun _ => ?_)
+  refine OkImp.ite (fun _ => OkImp.perr _) (fun _ => ?_)
+  refine OkImp.bind ?_
+  rintro ⟨t2, s2⟩
+  exact OkImp.pure ⟨trivial, fun h => by cases h⟩
+
+theorem nextTok_btok (s : RS) : OkImp (nextTok s) (fun p => p.2.btok = s.btok) := by
+  unfold nextTok
+  split
+  · exact OkImp.ok rfl
+  · exact OkImp.perr _
+  · exact OkImp.ok rfl
+
+theorem skipToSemi_btok (s : RS) : OkImp (skipToSemi s) (fun s' => s'.btok = s.btok) := by
+  unfold skipToSemi
+  refine OkImp.mono (iter_spec _ (fun x => x.btok = s.btok) (fun _ => True) ?_ s rfl) (fun a h => h.1)
+  intro s1 h1
+  refine OkImp.bind' (nextTok_btok s1) ?_
+  rintro ⟨t, s2⟩ h2
+  exact OkImp.pure ⟨by rw [← h1]; exact h2, fun _ => trivial⟩
+
+theorem taxaBlock_exit (s : RS) : OkImp (taxaBlock s) (fun s' => isEnd s'.btok = true) := by
+  unfold taxaBlock
+  refine OkImp.bind ?_
+  intro s1
+  refine OkImp.bind' (Q1 := fun s2 => isEnd s2.btok = true) ?_ ?_
+  · refine OkImp.mono (iter_spec _ (fun _ => True) (fun s' => isEnd s'.btok = true) ?_ _ trivial) (fun a h => h.2)
+    intro s2 _
+    try dsimp only
+    refine OkImp.ite (fun h => OkImp.pure ⟨trivial, fun _ => h⟩) (fun _ => ?_)
+    refine OkImp.bind ?_
+    rintro ⟨t, s3⟩
+    refine OkImp.bind ?_
+    intro s4
+    refine OkImp.bind ?_
+    intro s5
+    refine OkImp.bind ?_
+    intro s6
+    refine OkImp.pure ⟨trivial, fun h => ?_⟩
+    simpa using h
+  · intro s7 h7
+    refine OkImp.mono (skipToSemi_btok s7) ?_
+    intro a ha
+    rw [ha]; exact h7
+
+
+end DendroModel.C20.Aux
+
+namespace DendroModel.C20
+open DendroModel DendroModel.C20.Aux
+
+/-- **The loop rule with invariant and exit condition** (about the driver's `iter`): an invariant of the body is an
+invariant of the loop, and a loop that returns a value has seen its body stop, so what the body guarantees on stopping
+holds of the result. -/
+theorem reader_loop_exit_rule (b : RS → R (Bool × RS)) (I E : RS → Prop)
+    (hb : ∀ s, I s → ∀ p, b s = .ok p → I p.2 ∧ (p.1 = false → E p.2)) (s s' : RS) (hi : I s) (h : iter b s = .ok s') :
+    I s' ∧ E s' :=
+  iter_spec b I E hb s hi s' h
+
+/-- **A statement that is cut short is rejected.**  The statement parsers behind the anchored defect ("a NEXUS file cut
+inside DIMENSIONS / TAXLABELS / LINK / FORMAT spins") return a value only with the terminating `;` as their current
+statement token (for TAXLABELS: an *unquoted* `;`).  Together with `nexus_never_internal` (they terminate): on an input
+that ends before that semicolon they raise a parse error — they can neither spin nor return as if the statement were
+complete. -/
+theorem statement_needs_semicolon (s s' : RS) (i : Nat) :
+    (parseDimensions s = .ok s' → s'.stok = [';']) ∧
+    (parseTaxlabels i s = .ok s' → s'.stok = [';'] ∧ s'.quoted = false) ∧
+    (parseLink s = .ok s' → s'.stok = [';']) ∧
+    (parseFormat s = .ok s' → s'.stok = [';']) :=
+  ⟨parseDimensions_exit s s', parseTaxlabels_exit i s s', parseLink_exit s s', parseFormat_exit s s'⟩
+
+/-- **A TAXA block that is cut short is rejected**: `_parse_taxa_block` returns only after it has seen END / ENDBLOCK. -/
+theorem taxa_block_needs_end (s s' : RS) (h : taxaBlock s = .ok s') : isEnd s'.btok = true :=
+  taxaBlock_exit s s' h
+
+/-- **The invariant of the Newick machine holds where `_parse_tree_statement` starts it**, so `nesting_sub_safe` and
+`newick_balanced` apply to every state the driver reaches (label start; the `(` start is the same state after one
+`require_next_token`, see the proof of `newick_balanced`). -/
+theorem newick_inv_initial (c : Tok) (rest : List Char) (mp : Mapper) :
+    Inv { phase := .lab, f := {}, stack := [], cur := c, rest := rest, nesting := 0, seen := [], mapper := mp, trace := [c] } :=
+  inv_mk _ [] 0 (by simp) (by simp [depthAux]) (by simp) (by simp)
+
 /-! ### bounded work -/
 
 /-- the number of machine steps `run` takes from a state (a ghost counter over the driver's own `step`) -/
@@ -2111,8 +2382,10 @@ def iterRounds (body : RS → R (Bool × RS)) (s : RS) : Nat :=
   | _ => 1
 termination_by s.rest.length
 
-/-- **Linear work, Newick.**  Parsing a tree statement takes at most `3·|unread input| + 3` machine steps: the reader
-never re-reads input (no quadratic behaviour, whatever the nesting). -/
+/-- **Linear number of machine steps, Newick.**  `runSteps` is a ghost counter defined in this file next to `run`
+(same recursion over the driver's `step`; the driver itself does not count).  From any state the machine takes at most
+`3·|unread input| + 3` steps, whatever the nesting — a restatement of the termination measure (`step_decreases`) as a
+bound.  It counts machine steps, not the character work of the tokenizer inside a step. -/
 theorem newick_steps_linear (k : Cfg) (st : NState) : runSteps k st ≤ 3 * st.rest.length + 3 := by
   have key : ∀ (n : Nat) (st : NState), st.measure ≤ n → runSteps k st ≤ st.measure + 1 := by
     intro n
@@ -2139,7 +2412,10 @@ theorem newick_steps_linear (k : Cfg) (st : NState) : runSteps k st ≤ 3 * st.r
   unfold NState.measure at h1
   omega
 
-/-- **Linear work, every reader loop.**  A loop of the NEXUS reader runs its body at most `|unread input| + 1` times. -/
+/-- **Linear number of rounds of a reader loop.**  `iterRounds` is a ghost counter defined in this file next to `iter`.
+A loop runs its body at most `|unread input| + 1` times.  This holds for any body because `iter` refuses to continue
+without progress; its content comes from `nexus_never_internal`, which shows that this refusal never happens in `readNexus`,
+i.e. the real loops do make that progress. -/
 theorem reader_loop_rounds_linear (body : RS → R (Bool × RS)) (s : RS) : iterRounds body s ≤ s.rest.length + 1 := by
   have key : ∀ (n : Nat) (s : RS), s.rest.length ≤ n → iterRounds body s ≤ s.rest.length + 1 := by
     intro n
@@ -2164,8 +2440,10 @@ theorem reader_loop_rounds_linear (body : RS → R (Bool × RS)) (s : RS) : iter
       · omega
   exact key s.rest.length s (Nat.le_refl _)
 
-/-- **End of stream is a parse error.**  Cut a document — any text — after any number `n` of characters: each of the
-four reader models either still accepts what is left or reports a *parse* error; no third outcome exists (the
+/-- **Only two outcomes on any text, in particular on any truncation.**  (The name is historical; what is stated is
+the dichotomy, not that a cut yields an error — for that see `statement_needs_semicolon` / `taxa_block_needs_end`;
+`doc.take n` ranges over all texts.)  Each of the
+four reader models either accepts the text or reports a *parse* error; no third outcome exists (the
 `internal` markers are unreachable by `nexus_never_internal`, `newick_never_internal`, `phylip_never_internal`,
 `fasta_never_internal`, and the models are total functions, so they terminate).  In particular every truncation of
 an accepted document is accepted or a parse error. -/
@@ -2195,6 +2473,17 @@ theorem eof_is_parse_error (sy : Syms) (sym : Char → Bool) (strict interleaved
     | internal w => exact absurd h (fasta_never_internal sym _ w)
 
 /-! ### non-vacuity: the hypotheses of the theorems above are satisfiable -/
+
+theorem nextT_semi : nextT {} [';'] = .tok [';'] false [] := by
+  rw [nextT]
+  simp [skipWs, Cfg.unc, Cfg.cap, Tables.tokUncaptured, Tables.tokCaptured, isEol]
+
+/-- `statement_needs_semicolon`: a DIMENSIONS statement that is complete (`;`) is accepted by the model -/
+example : (parseDimensions { rest := [';'] }).isOk = true := by
+  unfold parseDimensions requireUcase requireTok
+  simp only [nextT_semi, bind, Except.bind, pure, Except.pure]
+  rw [iter]
+  simp [upper, upperC, semi, Except.isOk, Except.toBool]
 
 /-- `reader_loop_rule`: the body of `skip_to_semicolon` is such a body -/
 example : ∃ b : RS → R (Bool × RS), ∀ s, Post (b s) (BodyQ s) :=
